@@ -320,11 +320,82 @@ def shard_work(shard, nshards, payload):
         if j % nshards != shard:
             continue
         judge_actions(t, vd, j, parent, trio, perm)
+    for j, (label, src, ref_src, order) in enumerate(textual_docs()):
+        if j % nshards == shard:
+            judge_textual(t, vd, label, src, ref_src, order)
     if COMPONENT_DIR[0] is not None:
         import shutil
         shutil.rmtree(COMPONENT_DIR[0], ignore_errors=True)     # pool workers do not run atexit handlers
         COMPONENT_DIR[0] = None
     return t
+
+
+CONTAINERS = [
+    ("widget", "QWidget {{\n    id: root\n{kids}}}\n", ["QLabel {{ id: {n} }}", "QWidget {{ id: {n}; QLabel {{ id: {n}In }} }}", "QAction {{ id: {n} }}"]),
+    ("vbox", "QWidget {{\n    id: root\n    QVBoxLayout {{\n    id: lay\n{kids}    }}\n}}\n",
+     ["QLabel {{ id: {n} }}", "QHBoxLayout {{ id: {n}; QLabel {{ id: {n}In }} }}", "QSpacerItem {{ id: {n} }}"]),
+    ("menu", "QWidget {{\n    id: root\n    QMenu {{\n    id: menu\n{kids}    }}\n}}\n",
+     ["QAction {{ id: {n} }}", "QMenu {{ id: {n}; QAction {{ id: {n}In }} }}", "QAction {{ id: {n}; separator: true }}"]),
+    ("tabs", "QWidget {{\n    id: root\n    QTabWidget {{\n    id: tabs\n{kids}    }}\n}}\n",
+     ["QWidget {{ id: {n} }}", "QWidget {{ id: {n}; QLabel {{ id: {n}In }} }}", "QLabel {{ id: {n} }}"]),
+]
+ANNOTATIONS = ['@Deprecated {}', '@Deprecated { reason: "x" }', '@Qt.Note { text: "n" }']
+
+
+def textual_docs():
+    """-> (label, source, reference source or None, expected order of ids or None).
+    (1) A QML annotation before a child object has no meaning for the form: the document is rejected, or its form
+        is the one of the document without the annotation (the object and its subtree are there, in place).
+    (2) Children of a form / grid layout placed explicitly in cells that do not ascend: the items keep source order."""
+    head = "import qmluic.QtWidgets\n"
+    for cname, frame, kinds in CONTAINERS:
+        for pos in range(3):
+            for ai, ann in enumerate(ANNOTATIONS):
+                for ki, kind in enumerate(kinds):
+                    names = ["first", "second", "third"]
+                    plain, annotated = [], []
+                    for i, n in enumerate(names):
+                        line = "        " + (kind if i == pos else kinds[0]).format(n=n) + "\n"
+                        plain.append(line)
+                        annotated.append(("        " + ann + "\n" if i == pos else "") + line)
+                    yield (f"annotation/{cname}/{pos}/{ai}/{ki}", head + frame.format(kids="".join(annotated)), head + frame.format(kids="".join(plain)), None)
+    for lay in ("QFormLayout", "QGridLayout"):
+        for rows in itertools.permutations(range(3)):
+            for cols in ((None, None, None), (0, 0, 0), (1, 0, 1), (0, 1, 0)):
+                kids = ""
+                for i in range(3):
+                    col = f"; QLayout.column: {cols[i]}" if cols[i] is not None else ""
+                    kid = "QLabel" if i != 1 else "QDialogButtonBox"
+                    kids += f"        {kid} {{ id: c{i}; QLayout.row: {rows[i]}{col} }}\n"
+                yield (f"explicit-cells/{lay}/{''.join(map(str, rows))}/{cols}", head + f"QWidget {{\n    id: root\n    {lay} {{\n    id: lay\n{kids}    }}\n}}\n",
+                       None, ["c0", "c1", "c2"])
+
+
+def judge_textual(t, vd, label, src, ref_src, order):
+    r = vd.job({"id": label, "source": src, "modes": ["generate"]})
+    if "modes" not in r or r["modes"]["generate"].get("status") == "panic":
+        t.lost.append({"id": label})
+        return
+    g = r["modes"]["generate"]
+    t.inc("textual_documents")
+    t.distinct.add(("textual", label))
+    case = {"id": label, "source": src, "textual": [label, src, ref_src, order]}
+    if not vc.accepted(g, r.get("has_syntax_error")):
+        if order is not None:
+            t.violation("rejected-a-valid-layout:" + label.split("/")[0], dict(case, diagnostics=g.get("diagnostics")))
+        else:
+            t.inc("annotated_documents_rejected")
+        return
+    if ref_src is not None:
+        ref = vd.job({"id": label + "/ref", "source": ref_src, "modes": ["generate"]})["modes"]["generate"]
+        if g["ui"] != ref["ui"]:
+            t.violation("tree:annotated-object-changes-the-form", dict(case, ui=g["ui"][:1500]))
+        return
+    e = uiread.find_object(uiread.parse(g["ui"]), "lay")
+    got = [it.children[0].attrs.get("name") for it in e.findall("item") if it.children]
+    t.inc("trees")
+    if got != order:
+        t.violation("order:explicitly-placed-children-not-in-source-order", dict(case, got=got))
 
 
 def _tolist(shape):
@@ -447,6 +518,8 @@ def replay(path):
     t = vc.Tally()
     if "shape_json" in case:
         judge_shape(t, vd, 0, _fromlist(case["shape_json"]))
+    elif "textual" in case:
+        judge_textual(t, vd, *case["textual"])
     elif "actions_json" in case:
         parent, trio, perm = case["actions_json"]
         judge_actions(t, vd, 0, parent, tuple(trio), tuple(perm))
